@@ -399,3 +399,44 @@ def m1_layer_replay(job):
     if job["kind"] == "shrink":
         return {"failure": job["failure"]}
     return p_m1.run_job({"kind": "replay", "prop": rp0.get("inner_prop", "C02"), "replay": rp0.get("inner") or {}})
+
+
+# ---- the Lock below the Queue ---------------------------------------------------------------------------------------------------
+
+def m3_layer_jobs(prop, tier, seed, n_quick=10, n_thorough=40):
+    """the M3 exploration (C05/C06's subject: mutual exclusion, no lost notification) run for a Queue property"""
+    from . import p_m3
+    jobs = []
+    n = n_quick if tier == "quick" else n_thorough
+    for inner in ("C06", "C05"):
+        js = [j for j in p_m3.make_jobs(inner, tier, seed) if j.get("kind") in ("explore", "pbound", "corpus") and not j.get("side")
+              and not j.get("lines")]
+        for j in js[: n // 2]:
+            jobs.append({"kind": "layer3", "prop": prop, "inner": dict(j, prop=inner)})
+    return jobs
+
+
+def run_m3_layer(job):
+    from . import p_m3
+    res = p_m3.run_job(job["inner"])
+    if "infra_error" in res or "mon_fail" not in res:
+        return res
+    prop = job["prop"]
+    for f in res.get("mon_fail", []):
+        f["msg"] = "%s: the Lock under the Queue does not keep what the model of Queue assumes of it (%s)" % (prop, f["msg"])
+        f["replay"] = {"model": "m3-layer", "inner": f.get("replay"), "inner_prop": job["inner"].get("prop", "C06")}
+    for f in res.get("corr_fail", []):
+        f["msg"] = "layer M3 (Lock): " + f["msg"]
+        f["replay"] = {"model": "m3-layer", "inner": f.get("replay"), "inner_prop": job["inner"].get("prop", "C06")}
+    res["known"] = []
+    return res
+
+
+def m3_layer_replay(job):
+    rp0 = (job.get("replay") or {}).get("replay") or job.get("replay") or (job.get("failure") or {}).get("replay") or {}
+    if rp0.get("model") != "m3-layer":
+        return None
+    from . import p_m3
+    if job["kind"] == "shrink":
+        return {"failure": job["failure"]}
+    return p_m3.run_job({"kind": "replay", "prop": rp0.get("inner_prop", "C06"), "replay": rp0.get("inner") or {}})
